@@ -1080,7 +1080,7 @@ class Formula(ABC):
         if coeff is None:
             coeff = 0
         bounds = self.get_data()
-        x = bounds[..., 1] - bounds[..., 0]
+        x = (bounds[..., 1] - bounds[..., 0]).clamp(min=0)
         return (self.is_contradiction().logical_not() * coeff * x).sum()
 
     def _supervised_loss(self, coeff: float = None) -> Union[None, torch.Tensor]:
